@@ -252,17 +252,14 @@ class Neo4jPropertyGraph(ABCPropertyGraph):
         assert node_id is not None
         assert props is not None
 
-        all_props = ""
-        for k, v in props.items():
-            all_props += f"{k}: '{v}', "
-        if len(all_props) > 2:
-            all_props = all_props[:-2]
+        # values travel as a map parameter (stringified, as before), never as statement text
+        all_props = {k: str(v) for k, v in props.items()}
 
-        query = f"MATCH (s:GraphNode {{GraphID: $graphId, NodeID: $nodeId}}) " \
-            f"SET s+= {{ {all_props} }} RETURN properties(s)"
+        query = "MATCH (s:GraphNode {GraphID: $graphId, NodeID: $nodeId}) " \
+            "SET s+= $props RETURN properties(s)"
 
         with self.driver.session() as session:
-            val = session.run(query, graphId=self.graph_id, nodeId=node_id)
+            val = session.run(query, graphId=self.graph_id, nodeId=node_id, props=all_props)
             if val is None or len(val.value()) == 0:
                 raise PropertyGraphQueryException(graph_id=self.graph_id,
                                                   node_id=node_id,
@@ -377,10 +374,10 @@ class Neo4jPropertyGraph(ABCPropertyGraph):
         Does the graph with this ID exist?
         :return:
         """
-        inner_query = f'match(n:GraphNode {{GraphID: "{self.graph_id}"}}) -[r]- (m) return n, r, m'
+        inner_query = 'match(n:GraphNode {GraphID: $graphId}) -[r]- (m) return n, r, m'
         # run  query to check the graph has anything in it
         with self.driver.session() as session:
-            val = session.run(inner_query)
+            val = session.run(inner_query, graphId=self.graph_id)
             if val.peek() is None:
                 return False
         return True
@@ -535,11 +532,10 @@ class Neo4jPropertyGraph(ABCPropertyGraph):
         all_props = {'Class': f'{label}', 'GraphID': f'{self.graph_id}', 'NodeID': f'{node_id}'}
         if props:
             all_props.update(props)
-        string_props = ", ".join((f"{k}: '{v}'" for k, v in all_props.items()))
-        labels = f"'GraphNode', '{label}'"
-        query = f"CALL apoc.create.node([ {labels} ], {{ {string_props} }});"
+        # labels and (stringified, as before) values travel as parameters, never as statement text
+        query = "CALL apoc.create.node($labels, $props);"
         with self.driver.session() as session:
-            session.run(query)
+            session.run(query, labels=['GraphNode', label], props={k: str(v) for k, v in all_props.items()})
 
     def add_link(self, *, node_a: str, rel: str, node_b: str, props: Dict[str, Any] = None) -> None:
 
@@ -551,13 +547,14 @@ class Neo4jPropertyGraph(ABCPropertyGraph):
         all_props = {'Class': f'{rel}'}
         if props:
             all_props.update(props)
-        string_props = ", ".join((f"{k}: '{v}'" for k, v in all_props.items()))
-        query = f"MATCH (a:GraphNode {{GraphID: $graphId, NodeID: $nodeA}}) " \
-                f"MATCH (b:GraphNode {{GraphID: $graphId, NodeID: $nodeB}}) " \
-                f"CALL apoc.create.relationship(a, \"{rel}\", {{ {string_props} }}, b)" \
-                f"YIELD rel RETURN rel"
+        # relation and (stringified, as before) values travel as parameters, never as statement text
+        query = "MATCH (a:GraphNode {GraphID: $graphId, NodeID: $nodeA}) " \
+                "MATCH (b:GraphNode {GraphID: $graphId, NodeID: $nodeB}) " \
+                "CALL apoc.create.relationship(a, $rel, $props, b) " \
+                "YIELD rel RETURN rel"
         with self.driver.session() as session:
-            session.run(query, graphId=self.graph_id, nodeA=node_a, nodeB=node_b)
+            session.run(query, graphId=self.graph_id, nodeA=node_a, nodeB=node_b, rel=rel,
+                        props={k: str(v) for k, v in all_props.items()})
 
     def find_matching_nodes(self, *, other_graph) -> Set:
         """
